@@ -8,6 +8,7 @@ import (
 	"go/ast"
 	"go/token"
 	"go/types"
+	"regexp"
 	"sort"
 	"strconv"
 	"strings"
@@ -285,10 +286,26 @@ type Engine struct {
 	globalFuncInit map[string]*ssa.Function
 }
 
+var reByteRune = regexp.MustCompile(`\b(byte|rune)\b`)
+
+// typeKey: canonical name of a type (the aliases byte and rune are spelled uint8 and int32)
+func typeKey(ty types.Type) string {
+	k := types.TypeString(ty, nil)
+	if strings.Contains(k, "byte") || strings.Contains(k, "rune") {
+		k = reByteRune.ReplaceAllStringFunc(k, func(m string) string {
+			if m == "byte" {
+				return "uint8"
+			}
+			return "int32"
+		})
+	}
+	return k
+}
+
 func (e *Engine) tag(ty types.Type) int {
 	e.mu.Lock()
 	defer e.mu.Unlock()
-	k := types.TypeString(ty, nil)
+	k := typeKey(ty)
 	if n, ok := e.tags[k]; ok {
 		return n
 	}
@@ -825,7 +842,7 @@ func (t *tr) typeFacts(guard, term string, ty types.Type) {
 	case *types.Interface:
 		t.assume(guard, fmt.Sprintf("(iface_wf %s)", term))
 	case *types.Slice:
-		t.assume(guard, fmt.Sprintf("(and (<= 0 (soff %s)) (<= 0 (slen %s)) (<= (slen %s) (scap %s)) (<= (scap %s) 72057594037927936) (=> (> (scap %s) 0) (> (sref %s) 0)) (>= (sref %s) 0))", term, term, term, term, term, term, term, term))
+		t.assume(guard, fmt.Sprintf("(and (<= 0 (soff %s)) (<= 0 (slen %s)) (<= (slen %s) (scap %s)) (<= (scap %s) 72057594037927936) (=> (> (scap %s) 0) (> (sref %s) 0)) (>= (sref %s) 0) (=> (= (sref %s) 0) (= %s nullslice)))", term, term, term, term, term, term, term, term, term, term))
 		// a slice whose element type occurs in no array type can only point into an object made by make/append
 		if !t.eng.arrayElem[types.TypeString(u.Elem(), nil)] {
 			t.assume(guard, fmt.Sprintf("(=> (> (scap %s) 0) (= (styp %s) %d))", term, term, t.eng.sliceTag(ty)))
